@@ -14,6 +14,19 @@ Theorem C40_csv_model_meets_spec : forall t : table,
   table_wf t = true -> csv_spec_ok t (csv_doc t) = true.
 Proof. exact csv_model_meets_spec. Qed.
 
+(* a cell of any other type (list, vector, struct, map, date, timestamp, binary, ...) is given by its
+   display text: for EVERY text, commas / quotes / CR / LF included, the CSV reads back exactly it *)
+Theorem C40_csv_other_roundtrip : forall h txt : list Z,
+  csv_parse (csv_doc (mkTable [h] [[COther txt]])) = Some [[h]; [txt]].
+Proof. exact csv_other_roundtrip. Qed.
+
+(* the quoting scan is needed for non-string columns: [1, 2] written bare reads back as two fields *)
+Theorem C40_other_unquoted_refuted :
+  cell_text (COther [91; 49; 44; 32; 50; 93]) = [91; 49; 44; 32; 50; 93] /\
+  csv_parse ([104; 10] ++ [91; 49; 44; 32; 50; 93] ++ [10]) = Some [[[104]]; [[91; 49]; [32; 50; 93]]] /\
+  csv_doc (mkTable [[104]] [[COther [91; 49; 44; 32; 50; 93]]]) = [104; 10; 34; 91; 49; 44; 32; 50; 93; 34; 10].
+Proof. exact other_unquoted_refuted. Qed.
+
 (* integers are printed bare *)
 Theorem C40_int_never_quoted : forall n : Z, csv_field (CInt n) = int_dec n.
 Proof. exact int_never_quoted. Qed.
@@ -105,6 +118,8 @@ Proof. exact json_nonfinite_regression. Qed.
 
 Print Assumptions C40_csv_roundtrip.
 Print Assumptions C40_csv_model_meets_spec.
+Print Assumptions C40_csv_other_roundtrip.
+Print Assumptions C40_other_unquoted_refuted.
 Print Assumptions C40_int_never_quoted.
 Print Assumptions C40_json_roundtrip.
 Print Assumptions C40_int_dec_number_ok.
